@@ -189,14 +189,17 @@ class CFG:
                 stack.append(s)
         return seen
 
-    def must_pass(self, start, targets, to=None, ignore_exceptions=True):
+    def must_pass(self, start, targets, to=None, ignore_exceptions=True, infeasible=None):
         """Every path from ``start`` to ``to`` (default: normal exit) passes
         through a node in ``targets``."""
         to = to or self.exit
         tset = set(targets)
         if start in tset:
             return True
-        skip = (lambda a, b, lab: lab == 'X') if ignore_exceptions else None
+        def skip(a, b, lab):
+            if ignore_exceptions and lab == 'X':
+                return True
+            return bool(infeasible and infeasible(a, b, lab))
         reach = self.reachable_from(start, blocked=tset, skip_edge=skip)
         return to not in reach
 
